@@ -115,6 +115,16 @@ class NoPeekRaw(io.RawIOBase):
         return len(d)
 
 
+def _adapter_reader(container):
+    if container == "stream":
+        from flow.record.adapter.stream import StreamReader
+
+        return StreamReader
+    from flow.record.adapter.avro import AvroReader
+
+    return AvroReader
+
+
 def _rewound(f):
     f.seek(0)
     return f
@@ -213,6 +223,9 @@ def check_matrix(case, ctx):
             ("wplus-file-refilled", lambda: RecordReader(fileobj=_filled(open(os.path.join(tmp, "wplus.bin"), "w+b"), data))),
             ("spooled-tempfile", lambda: RecordReader(fileobj=_filled(tempfile.SpooledTemporaryFile(max_size=1 << 30), data))),
             ("tempfile", lambda: RecordReader(fileobj=_filled(tempfile.TemporaryFile(), data))),
+            # the adapter's reader class handed the open file object directly
+            ("adapter-class-fileobj", lambda: _adapter_reader(container)(io.BytesIO(data))),
+            ("adapter-class-file", lambda: _adapter_reader(container)(open(path, "rb"))),
         ]
         for wname, factory in ways:
             res = impl(read_all, factory)
@@ -565,6 +578,10 @@ def check_garbage(case, ctx):
         res = impl(run)
         if got:
             raise Violation("garbage/%s/misread-as-records" % way, "%r yielded %d records: %r" % (data[:40], len(got), got[:1]))
+        if not res.ok and isinstance(res.exc, (ImportError, NameError, AttributeError)):
+            # "refused with an adapter-not-found or format error": an import / name / attribute error is the dispatch
+            # falling over, not a refusal of the input
+            raise Violation("garbage/%s/not-a-refusal" % way, "%r ended in %r" % (data[:40], res), detail=res.type)
         if res.ok:
             raise Violation("garbage/%s/accepted-silently" % way, "%r was read without an error (0 records)" % (data[:40],),
                             detail=case["kind"])
